@@ -722,6 +722,11 @@ class FnTr:
             s0, c, t = self.tr(args[1])
             if t == "Int" or is_node(t):
                 return s0, c, f"Node@{ast.unparse(args[0])}"
+        if f in ("Tree.Branch", "self.Branch", "Tree.Path", "self.Path") and len(args) == 2 and not kw and ast.unparse(args[0]) in self.spec.tree_cols:
+            # a `Branch` / `Path` of a tree that is its column variables is the list of the node ids it is built from
+            s0, c, t = self.tr(args[1], ("List", "Int"))
+            if t == ("List", "Int"):
+                return s0, c, t
         if isinstance(e.func, ast.Attribute) and e.func.attr in NODE_METHODS:
             try:
                 s0, rc, rt = self.tr(e.func.value)
@@ -929,6 +934,14 @@ class FnTr:
             s0, c, t = self.tr(args[0].args[0])
             if t == ("List", "Int"):
                 return s0, f"(Py.uniqueCount {c})", "Int"
+        if f == "np.setdiff1d" and len(args) == 2 and set(kw) <= {"assume_unique"}:
+            au = kw.get("assume_unique")
+            if au is not None and not (isinstance(au, ast.Constant) and isinstance(au.value, bool)):
+                raise Untranslatable(f"{self.spec.lean}: `{ast.unparse(e)}`: assume_unique must be a literal")
+            s1, a, ta = self.tr(args[0]); s2, b, tb = self.tr(args[1])
+            if ta == ("List", "Int") and tb == ("List", "Int"):
+                fn = "Py.setdiff1dAU" if (au is not None and au.value) else "Py.setdiff1d"
+                return s1 + s2, f"({fn} {a} {b})", ("List", "Int")
         if f == "np.cumsum" and len(args) == 1:
             s0, c, t = self.tr(args[0])
             if t == ("List", "Int"):
@@ -1357,6 +1370,21 @@ class FnTr:
         uses_fuel = self.spec.fuel and re.search(r"\bfuel\b", code) is not None
         return (self.binders_nofuel + (" (fuel : Nat)" if uses_fuel else "")).strip()
 
+    def lower_walrus_test(self, t0):
+        """statements that `break` out of the enclosing `while True:` exactly when the loop test `t0` is false, performing its
+        assignment expressions in evaluation order"""
+        if not any(isinstance(n, ast.NamedExpr) for n in ast.walk(t0)):
+            return [ast.If(ast.UnaryOp(ast.Not(), t0), [ast.Break()], [])]
+        if isinstance(t0, ast.BoolOp) and isinstance(t0.op, ast.And):
+            return [st for x in t0.values for st in self.lower_walrus_test(x)]
+        if not (isinstance(t0, ast.Compare) and isinstance(t0.left, ast.NamedExpr) and isinstance(t0.left.target, ast.Name)
+                and not any(isinstance(n, ast.NamedExpr) for n in ast.walk(t0.left.value))
+                and not any(isinstance(n, ast.NamedExpr) for c0 in t0.comparators for n in ast.walk(c0))):
+            raise Untranslatable(f"{self.spec.lean}: walrus in `while {ast.unparse(t0)}`")
+        asg = ast.Assign([ast.Name(t0.left.target.id, ast.Store())], t0.left.value)
+        test2 = ast.Compare(ast.Name(t0.left.target.id, ast.Load()), t0.ops, t0.comparators)
+        return [asg, ast.If(ast.UnaryOp(ast.Not(), test2), [ast.Break()], [])]
+
     def s_While(self, s):
         if s.orelse:
             raise Untranslatable("while-else")
@@ -1364,15 +1392,9 @@ class FnTr:
             raise Untranslatable(f"{self.spec.lean}: while loop in a function without fuel")
         if any(isinstance(n, ast.NamedExpr) for n in ast.walk(s.test)):
             # `while (x := e) is not None: body`  ->  `while True: x = e; if not (x is not None): break; body`
-            # (sound when the walrus is the first thing the test evaluates: a comparison whose left operand it is)
-            t0 = s.test
-            if not (isinstance(t0, ast.Compare) and isinstance(t0.left, ast.NamedExpr) and isinstance(t0.left.target, ast.Name)
-                    and not any(isinstance(n, ast.NamedExpr) for c0 in t0.comparators for n in ast.walk(c0))):
-                raise Untranslatable(f"{self.spec.lean}: walrus in `while {ast.unparse(t0)}`")
-            asg = ast.Assign([ast.Name(t0.left.target.id, ast.Store())], t0.left.value)
-            test2 = ast.Compare(ast.Name(t0.left.target.id, ast.Load()), t0.ops, t0.comparators)
-            brk = ast.If(ast.UnaryOp(ast.Not(), test2), [ast.Break()], [])
-            new = ast.While(ast.Constant(True), [asg, brk] + list(s.body), [])
+            # (sound when the walrus is the first thing the conjunct evaluates: a comparison whose left operand it is);
+            # `while A and B: body`  ->  `while True: if not A: break; if not B: break; body`  (short-circuit `and`, left to right)
+            new = ast.While(ast.Constant(True), self.lower_walrus_test(s.test) + list(s.body), [])
             for nd in ast.walk(new):
                 if not hasattr(nd, "lineno"):
                     nd.lineno = nd.col_offset = nd.end_lineno = nd.end_col_offset = 0
